@@ -446,7 +446,25 @@ def rule_broadcast(ctx):
         ctx.holds('R3', 'broadcast_arrays: align_dims -> _get_axes -> broadcast(axes) for every array')
     else:
         ctx.violated('R3', fi, 'broadcast_arrays', 'broadcast_arrays must chain align_dims, the alignment check _get_axes and broadcast on every array')
-    # _get_axes raises for misaligned non-singleton axes
+    # _get_axes raises for misaligned non-singleton axes; which axis it picks per dimension.  Two readings: the structural one (guards of the raising path, decision
+    # table of the update test) and the interpretation of _get_axes on abstract arrays (scenario table: equal / differing labels, single label, placeholder, empty axis
+    # in both orders, three arrays, missing dimensions).  The structural reading counts when it ends without a complaint; otherwise the table decides.
+    from ..report import Trial
+    real_ctx, ctx = ctx, Trial(ctx)
+    try:
+        _get_axes_structural(ctx)
+    except AnalysisError as e:
+        ctx.complaints.append(str(e)[:80])
+    trial, ctx = ctx, real_ctx
+    if not trial.complaints:
+        trial.commit()
+    else:
+        trial.discard()
+        from ..scenario_rule import rule_scenarios
+        rule_scenarios(ctx, 'R3', only=AL + '_get_axes', title='_get_axes: common axis per dimension, misaligned full axes refused (by interpretation; the structural reading gave up on: %s)' % '; '.join(trial.complaints[:2]))
+
+
+def _get_axes_structural(ctx):
     fi = ctx.fn(AL + '_get_axes')
     ev = run(ctx, fi, mode='join')
     raises = [p for p in raise_paths(ev) if exc_name(p.value) == 'ValueError']
